@@ -384,8 +384,8 @@ example : endsBS (cs!"he said \"hi\", it's C:\\dir # x = \\\"y") = false := by d
     name, type keyword, `[dims]`, ` = `, value (token or quoted text), unit — with the model of the DIP node parser
     gives back exactly the parameters in order: name, kind, precision, shape (declared dimensions = actual
     shape), value, unit.
-    PARTIAL, what is missing: (1) arrays of strings (`'[…]'`, JSON with `\\uXXXX` escapes) are not in the reader
-    model (`none`); (2) string texts containing `$` are excluded because `DIP._determine_node` decodes its own
+    PARTIAL, what is missing: (1) arrays of strings (`'[…]'`, JSON with `\\uXXXX` escapes) are not in this
+    theorem's fragment (they are in `C19_roundtrip_dip_strings_partial` below); (2) string texts containing `$` are excluded because `DIP._determine_node` decodes its own
     place-holders `$@00` / `$@01` / `$@02` also when they occur in a value (reader: `none`); (3) texts ending in
     a backslash are the known finding `dip:string-trailing-backslash`.  These stay covered by the correspondence
     with the real parser only. -/
